@@ -25,6 +25,7 @@ class Disconnection:
       self._remove_nonfield_references()
       self._gfa._unregister_line(self)
       self._gfa = None
+      self._set_reference_orientations_editable(True)
     finally:
       self.__dict__["_disconnecting"] = False
     self._disconnect_unreferenced_placeholders(referenced)
